@@ -724,5 +724,13 @@ def run(ctx):
     return {"level": "model_checking", "exhaustive": False}
 
 
+def run_guarded(ctx):
+    """an I/O problem of the harness itself (disk full, ...) is 'could not decide' (exit 2), never exit 1"""
+    try:
+        return run(ctx)
+    except OSError as e:
+        raise MachineryError(f"harness I/O error: {e!r}")
+
+
 if __name__ == "__main__":
-    main("C10", run)
+    main("C10", run_guarded)
